@@ -16,42 +16,91 @@ projections and type-parameter bounds*:
 * a type variable is below its bound; two covariant projections compare by their bounds;
 * reflexivity (through `beq`) and transitivity are explicit.
 
+The relation is relative to a *universe* `U` of types (the types that can be written over the
+class table at hand: `U` is closed under immediate sub-terms, `ClosedU`): the middle type of a
+`trans` step must belong to `U`.  Without this restriction the relation would be trivial,
+because `beq` identifies every two built-ins of the same class whatever their supertypes are:
+through a foreign copy `Any'` of `Any` whose stored supertype is `String`, one would derive
+`A ≤ A' ≤ Any' ≤ String` for every class `A : Any`.  In the universe of one class table, equal
+classes have equal supertypes (that is what "completed class table" means) and the relation is
+the intended one.  `univ [s, t]` is the least universe that contains `s` and `t`.
+
 `wf` is the decidable well-formedness the soundness theorem assumes: variances are 0/1/2 and a
 bounded use-site projection never contradicts the declaration-site variance of its parameter.
 -/
 namespace Heph
 namespace Ty
 
+/-- immediate sub-terms of a type -/
+def children : Ty → List Ty
+  | builtin _ _ _ _ ss => ss
+  | simple _ ss => ss
+  | tparam _ _ bd => bd.toList
+  | wild _ bd => bd.toList
+  | tcon _ _ ps ss => ps ++ ss
+  | param _ con as ss => con :: (as ++ ss)
+  | _ => []
+
+/-- a universe of types: closed under immediate sub-terms -/
+def ClosedU (U : Ty → Prop) : Prop := ∀ x, U x → ∀ y ∈ children x, U y
+
 mutual
-inductive SubT : Ty → Ty → Prop
-  | refl {s t} : beq s t = true → SubT s t
-  | reflR {s t} : beq t s = true → SubT s t
-  | trans {s u t} : SubT s u → SubT u t → SubT s t
-  | bot {t} : SubT nothing t
-  | botBuiltin {c nm p ss t} : SubT (builtin c nm true p ss) t
-  | nominal {s u} : u ∈ sups s → SubT s u
-  | tvar {nm v bd} : SubT (tparam nm v (some bd)) bd
-  | projOut {sb ob} : SubT sb ob → SubT (wild 1 (some sb)) (wild 1 (some ob))
+/-- all sub-terms of a type (itself included) -/
+def subterms : Ty → List Ty
+  | builtin c nm nt p ss => builtin c nm nt p ss :: subtermsL ss
+  | simple nm ss => simple nm ss :: subtermsL ss
+  | tparam nm v bd => tparam nm v bd :: subtermsO bd
+  | wild v bd => wild v bd :: subtermsO bd
+  | tcon c nm ps ss => tcon c nm ps ss :: (subtermsL ps ++ subtermsL ss)
+  | param nm con as ss => param nm con as ss :: (subterms con ++ (subtermsL as ++ subtermsL ss))
+  | t => [t]
+def subtermsL : List Ty → List Ty
+  | [] => []
+  | x :: xs => subterms x ++ subtermsL xs
+def subtermsO : Option Ty → List Ty
+  | none => []
+  | some x => subterms x
+end
+
+/-- the least universe containing the types `ts` -/
+def univ (ts : List Ty) : Ty → Prop := fun x => x ∈ subtermsL ts
+
+/-- a universe is *consistent* when `==` on its members is structural equality: one class, one
+    declaration (same name ⇒ same type parameters and supertypes).  True of the types written
+    over one completed class table as long as a primitive and its box (which are `==`) do not
+    both occur. Not needed for soundness; it is the hypothesis of exactness statements. -/
+def Consistent (U : Ty → Prop) : Prop := ∀ x y, U x → U y → beq x y = true → x = y
+
+mutual
+inductive SubT (U : Ty → Prop) : Ty → Ty → Prop
+  | refl {s t} : beq s t = true → SubT U s t
+  | reflR {s t} : beq t s = true → SubT U s t
+  | trans {s u t} : U u → SubT U s u → SubT U u t → SubT U s t
+  | bot {t} : SubT U nothing t
+  | botBuiltin {c nm p ss t} : SubT U (builtin c nm true p ss) t
+  | nominal {s u} : u ∈ sups s → SubT U s u
+  | tvar {nm v bd} : SubT U (tparam nm v (some bd)) bd
+  | projOut {sb ob} : SubT U sb ob → SubT U (wild 1 (some sb)) (wild 1 (some ob))
   | args {nm con as ss nm' con' bs ss'} :
-      beq con con' = true → ContL (conParams con) as bs →
-      SubT (param nm con as ss) (param nm' con' bs ss')
+      beq con con' = true → ContL U (conParams con) as bs →
+      SubT U (param nm con as ss) (param nm' con' bs ss')
 /-- per-position containment along the `zip` of parameters and the two argument lists -/
-inductive ContL : List Ty → List Ty → List Ty → Prop
-  | stop {tps as bs} : tps = [] ∨ as = [] ∨ bs = [] → ContL tps as bs
-  | cons {tp tps a as b bs} : Cont tp a b → ContL tps as bs → ContL (tp :: tps) (a :: as) (b :: bs)
-/-- `Cont tp a b`: argument `a` is contained in argument `b` at type parameter `tp` -/
-inductive Cont : Ty → Ty → Ty → Prop
-  | same {tp a b} : beq a b = true → Cont tp a b
-  | declCo {tp a b} : variance tp = 1 → isWild a = false → isWild b = false → SubT a b → Cont tp a b
-  | declContra {tp a b} : variance tp = 2 → isWild a = false → isWild b = false → SubT b a → Cont tp a b
-  | useOut {tp a bd} : isWild a = false → SubT a bd → Cont tp a (wild 1 (some bd))
-  | useIn {tp a bd} : isWild a = false → SubT bd a → Cont tp a (wild 2 (some bd))
-  | outOut {tp bd bd'} : SubT bd bd' → Cont tp (wild 1 (some bd)) (wild 1 (some bd'))
-  | inIn {tp bd bd'} : SubT bd' bd → Cont tp (wild 2 (some bd)) (wild 2 (some bd'))
-  | star {tp a v} : (isWild a = false ∨ (boundOf a).isSome) → Cont tp a (wild v none)
+inductive ContL (U : Ty → Prop) : List Ty → List Ty → List Ty → Prop
+  | stop {tps as bs} : tps = [] ∨ as = [] ∨ bs = [] → ContL U tps as bs
+  | cons {tp tps a as b bs} : Cont U tp a b → ContL U tps as bs → ContL U (tp :: tps) (a :: as) (b :: bs)
+/-- `Cont U tp a b`: argument `a` is contained in argument `b` at type parameter `tp` -/
+inductive Cont (U : Ty → Prop) : Ty → Ty → Ty → Prop
+  | same {tp a b} : beq a b = true → Cont U tp a b
+  | declCo {tp a b} : variance tp = 1 → isWild a = false → isWild b = false → SubT U a b → Cont U tp a b
+  | declContra {tp a b} : variance tp = 2 → isWild a = false → isWild b = false → SubT U b a → Cont U tp a b
+  | useOut {tp a bd} : isWild a = false → SubT U a bd → Cont U tp a (wild 1 (some bd))
+  | useIn {tp a bd} : isWild a = false → SubT U bd a → Cont U tp a (wild 2 (some bd))
+  | outOut {tp bd bd'} : SubT U bd bd' → Cont U tp (wild 1 (some bd)) (wild 1 (some bd'))
+  | inIn {tp bd bd'} : SubT U bd' bd → Cont U tp (wild 2 (some bd)) (wild 2 (some bd'))
+  | star {tp a v} : (isWild a = false ∨ (boundOf a).isSome) → Cont U tp a (wild v none)
   /-- a projection that agrees with the declared variance of its position is the type itself -/
-  | projDeclCo {tp bd b} : variance tp = 1 → isWild b = false → SubT bd b → Cont tp (wild 1 (some bd)) b
-  | projDeclContra {tp bd b} : variance tp = 2 → isWild b = false → SubT b bd → Cont tp (wild 2 (some bd)) b
+  | projDeclCo {tp bd b} : variance tp = 1 → isWild b = false → SubT U bd b → Cont U tp (wild 1 (some bd)) b
+  | projDeclContra {tp bd b} : variance tp = 2 → isWild b = false → SubT U b bd → Cont U tp (wild 2 (some bd)) b
 end
 
 /-- a bounded projection in argument position agrees with the declared variance of the parameter -/
